@@ -78,7 +78,26 @@ func (c *Ctx) builtinFns() []*builtinFn {
 		}
 		return bf
 	}
-	ident := func(e ast.Expr) ast.Expr { return e }
+	// a local that is defined once by `name := <expr>` stands for that expression (`handler := func(…){…}`, `pattern := regexp.MustCompile(…)`)
+	resolveLocal := func(e ast.Expr) ast.Expr {
+		for i := 0; i < 3; i++ {
+			id, ok := e.(*ast.Ident)
+			if !ok {
+				return e
+			}
+			o := pl.pkg.TypesInfo.Uses[id]
+			if o == nil || o.Parent() == nil || o.Parent() == pl.pkg.Types.Scope() {
+				return e // package-level names keep their meaning (named handler functions)
+			}
+			d, ok := pl.decl[o].(ast.Expr)
+			if !ok {
+				return e
+			}
+			e = d
+		}
+		return e
+	}
+	ident := func(e ast.Expr) ast.Expr { return resolveLocal(e) }
 	for _, f := range pl.pkg.Syntax {
 		for _, d := range f.Decls {
 			fd, ok := d.(*ast.FuncDecl)
@@ -151,7 +170,7 @@ func (c *Ctx) builtinFns() []*builtinFn {
 								}
 							}
 						}
-						return e
+						return resolveLocal(e)
 					}
 					_, dynamic := isCtorCall(b.call)
 					out = append(out, mk(fd, b.call, dynamic, sub))
@@ -202,7 +221,16 @@ func (pl *plit) schemaKindPattern(e ast.Expr) (string, string) {
 	case pkgSchema + ".NewStringSchema":
 		pat := ""
 		if len(call.Args) == 3 {
-			if mc, ok := call.Args[2].(*ast.CallExpr); ok && pl.calleeName(mc) == "regexp.MustCompile" && len(mc.Args) == 1 {
+			patArg := call.Args[2]
+			if id, isID := patArg.(*ast.Ident); isID {
+				// `acceptedInput := regexp.MustCompile(…)` defined once next to the constructor call
+				if o := pl.pkg.TypesInfo.Uses[id]; o != nil && o.Parent() != nil && o.Parent() != pl.pkg.Types.Scope() {
+					if d, ok := pl.decl[o].(ast.Expr); ok {
+						patArg = d
+					}
+				}
+			}
+			if mc, ok := patArg.(*ast.CallExpr); ok && pl.calleeName(mc) == "regexp.MustCompile" && len(mc.Args) == 1 {
 				if tv, ok := pl.info(mc).Types[mc.Args[0]]; ok && tv.Value != nil && tv.Value.Kind() == constant.String {
 					pat = constant.StringVal(tv.Value)
 				}
@@ -481,6 +509,40 @@ func c18R1(c *Ctx) {
 					}
 				}
 			})
+			if !bounded {
+				// the bound is checked by a helper: `if err := checkFormatPrecision(precision); err != nil { return "", err }`
+				eachInstr(h, func(r2 instrRef) {
+					call, ok := r2.I.(*ssa.Call)
+					if !ok {
+						return
+					}
+					hf := call.Common().StaticCallee()
+					if hf == nil || !isRepoFn(hf) || len(hf.Blocks) == 0 {
+						return
+					}
+					for ai, a := range call.Common().Args {
+						if cv, ok := a.(*ssa.Convert); ok {
+							a = cv.X
+						}
+						if a != ssa.Value(param) || ai >= len(hf.Params) {
+							continue
+						}
+						if ok, _ := paramBoundByHelper(hf, hf.Params[ai]); !ok {
+							continue
+						}
+						// the use is on the `err == nil` side of the helper's result
+						if guardedBy(r.I, false, func(cond ssa.Value) bool {
+							b, ok := cond.(*ssa.BinOp)
+							return ok && b.Op == token.NEQ && isNilConst(b.Y) && b.X == ssa.Value(call)
+						}) != nil || guardedBy(r.I, true, func(cond ssa.Value) bool {
+							b, ok := cond.(*ssa.BinOp)
+							return ok && b.Op == token.EQL && isNilConst(b.Y) && b.X == ssa.Value(call)
+						}) != nil {
+							bounded = true
+						}
+					}
+				})
+			}
 			c.verdict(bounded, rule, key, c.instrPos(r.I), "the "+what+" comes from parameter "+param.Name()+", which is bounded above by a constant on the dominating edge",
 				"the "+what+" comes from the integer parameter "+param.Name()+" without an upper bound: the library call allocates in proportion to it and panics near the integer limits (arguments are not checked against the parameter schema when the function is called)")
 		})
@@ -785,6 +847,40 @@ func c18R5(c *Ctx) {
 			}
 		}
 	})
+	// the element is built by a helper (`combineWithConstant(itemValue, columnValues)`): its keys, with the helper's
+	// parameters replaced by the call's arguments
+	if len(keys) == 0 {
+		eachInstr(h, func(r instrRef) {
+			call, ok := r.I.(*ssa.Call)
+			if !ok {
+				return
+			}
+			f := call.Common().StaticCallee()
+			if f == nil || !isRepoFn(f) || len(f.Blocks) == 0 {
+				return
+			}
+			eachInstr(f, func(r2 instrRef) {
+				mu, ok := r2.I.(*ssa.MapUpdate)
+				if !ok {
+					return
+				}
+				k, isC := constString(mu.Key)
+				if !isC {
+					return
+				}
+				v := mu.Value
+				if mi, ok := v.(*ssa.MakeInterface); ok {
+					v = mi.X
+				}
+				for pi, fp := range f.Params {
+					if v == ssa.Value(fp) && pi < len(call.Common().Args) {
+						v = call.Common().Args[pi]
+					}
+				}
+				keys[k] = v
+			})
+		})
+	}
 	// declared keys
 	declared := map[string]bool{}
 	if th := c.Fn("builtinfunctions.HandleTypeSchemaCombine"); th != nil {
@@ -909,4 +1005,71 @@ func indexBoundedByLen(at ssa.Instruction, idx, x ssa.Value) bool {
 		l, ok := b.Y.(*ssa.Call)
 		return ok && isBuiltinCall(l, "len") && l.Call.Args[0] == x
 	}) != nil
+}
+
+// paramBoundByHelper: hf(p) returns a nil error only where p is bounded above by a constant (every nil return is
+// dominated by the `p <= K` / `p < K` side of a comparison of p with a constant); also reports the smallest such K
+// for the refusing side.
+func paramBoundByHelper(hf *ssa.Function, p *ssa.Parameter) (bool, int64) {
+	okAll, n := true, 0
+	var minK int64 = -1
+	eachInstr(hf, func(r instrRef) {
+		ret, isRet := r.I.(*ssa.Return)
+		if !isRet {
+			return
+		}
+		res := retResults(ret)
+		if len(res) == 0 || !isNilConst(res[len(res)-1]) {
+			return
+		}
+		n++
+		bounded := false
+		for _, t := range hf.Blocks {
+			ifi, isIf := t.Instrs[len(t.Instrs)-1].(*ssa.If)
+			if !isIf {
+				continue
+			}
+			cnd, isB := ifi.Cond.(*ssa.BinOp)
+			if !isB {
+				continue
+			}
+			op := cnd.Op
+			var k *ssa.Const
+			x, y := cnd.X, cnd.Y
+			if cv, ok := x.(*ssa.Convert); ok {
+				x = cv.X
+			}
+			if cv, ok := y.(*ssa.Convert); ok {
+				y = cv.X
+			}
+			if x == ssa.Value(p) {
+				k, _ = cnd.Y.(*ssa.Const)
+			} else if y == ssa.Value(p) {
+				k, _ = cnd.X.(*ssa.Const)
+				op = flipCmp(op)
+			}
+			if k == nil {
+				continue
+			}
+			for succ := 0; succ < 2; succ++ {
+				if !edgeDominates(t, succ, r.Block) {
+					continue
+				}
+				o := op
+				if succ == 1 {
+					o = negateCmp(o)
+				}
+				if o == token.LSS || o == token.LEQ {
+					bounded = true
+					if kv, isInt := constInt(k); isInt && (minK < 0 || kv < minK) {
+						minK = kv
+					}
+				}
+			}
+		}
+		if !bounded {
+			okAll = false
+		}
+	})
+	return okAll && n > 0, minK
 }
